@@ -247,7 +247,9 @@ func numberOfBloomFilterBits(n uint, r float64) uint {
 }
 
 func numberOfBloomFilterHashFunctions(s uint, n uint) uint {
-	return uint(math.Round(float64(s) / float64(n) * math.Log(2)))
+	// At least one hash function: for false positive rates close to 1 the optimum rounds to 0,
+	// and a filter with no hash function reports every added item as absent.
+	return max(1, uint(math.Round(float64(s)/float64(n)*math.Log(2))))
 }
 
 func (c *bloomFilter) Add(ctx context.Context, key string) error {
